@@ -85,6 +85,7 @@ def kind_of_T(t):
 
 
 def resolve_class(name):
+    name = name.split('#')[0]
     modname, qn = name.split(':')
     mod = importlib.import_module(modname)
     o = mod
@@ -804,7 +805,11 @@ def verify(registry, top, tier='quick', max_paths=4000, collect_pre=True):
         try:
             outcome = run_path(cfg, path, top, func, is_lemma)
         except Infeasible:
-            continue
+            if os.environ.get('PYVC_DEBUG'):
+                print(f'[infeasible] decisions={path.decisions} at {path.cur_loc}', file=sys.stderr, flush=True)
+            # obligations stated before the path died must be kept: a *failing* obligation is
+            # assumed after it is stated and can itself be what makes the rest infeasible
+            outcome = 'infeasible'
         except PathEnd:
             outcome = 'cut'
         except Unsupported as e:
@@ -817,7 +822,8 @@ def verify(registry, top, tier='quick', max_paths=4000, collect_pre=True):
         except RecursionError:
             res.undecided.append('python recursion limit in the engine')
             outcome = 'unsupported'
-        res.paths += 1
+        if outcome != 'infeasible':
+            res.paths += 1
         if os.environ.get('PYVC_DEBUG'):
             print(f'[path {res.paths}] {outcome} decisions={path.decisions} obl={len(path.obligations)} at {path.cur_loc}', file=sys.stderr, flush=True)
         res.inlined |= path.inlined
